@@ -1045,3 +1045,21 @@ example : |idaubechies2 (coeffsOf 1) 4 4 (daubechies2 (coeffsOf 1) 4 4 (fun y x 
     (fun y x => if y = 2 ∧ x = 2 then (1 : ℚ) else 0) 1 (by norm_num)
     (by intro y x _ _; by_cases h : y = 2 ∧ x = 2 <;> simp [h]) 2 2 (by omega) (by omega) (by omega) (by omega)
   simpa using this
+
+/-- **C17 (the truncated pointer never leaves the row).** For every stride (positive, negative, zero), every length
+`N` (odd included) and every sample index `i < N/2` that `ihaar` (`high[i·step]`) and `iwavelet`
+(`_access(high, N1/2, i, step)`) use: the address offset `highOff step N + step·i` relative to `data` lies in
+`[0, step·(N−1)]` (in `[step·(N−1), 0]` for a negative stride) — between the first and the last element of the row the
+kernel was given. So the misplaced reads on odd sides are reads of other elements of the same array, never
+out-of-bounds accesses. -/
+theorem C17_high_reads_in_row (step : Int) (N i : Nat) (hi : i < N / 2) :
+    (0 ≤ step → 0 ≤ Mem.highOff step N + step * (i : Int) ∧
+      Mem.highOff step N + step * (i : Int) ≤ step * ((N - 1 : Nat) : Int)) ∧
+    (step ≤ 0 → step * ((N - 1 : Nat) : Int) ≤ Mem.highOff step N + step * (i : Int) ∧
+      Mem.highOff step N + step * (i : Int) ≤ 0) :=
+  Mem.high_read_in_row step N i hi
+
+/-- non-vacuity: the transposed pass over a C-contiguous `5 × 5` array (`step = 5`, `N = 5`): the two high samples are
+read at offsets 12 and 17, inside `[0, 20]`, where samples 2 and 3 of the column are at 10 and 15 -/
+example : Mem.highOff 5 5 + 5 * 0 = 12 ∧ Mem.highOff 5 5 + 5 * 1 = 17 ∧ (5 : Int) * ((5 - 1 : Nat) : Int) = 20 := by
+  decide
